@@ -1,7 +1,7 @@
 \* thorough: the two-import headers x budget 2 over the import-sensitive productions and the constructs that reach
 \* patterns (statements, case): `let q.A(a) = m2.c`, `case r.A(1) { m2.A(a: b) -> .. }`, ...
 CONSTANTS Budget = 2 MaxItems = 1 Sim = FALSE Headers = "pairs"
-  Masked = {"pas_var", "item_b", "params1", "params2", "pipe", "call", "use", "expr_stmt", "ctor_unq", "ctor_unq_labelled",
+  Masked = {"item_b", "params1", "params2", "pipe", "call", "use", "expr_stmt", "ctor_unq", "ctor_unq_labelled",
             "block", "lambda", "binop", "list", "tuple", "own_ctor_labelled", "own_ctor2_labelled", "own_field",
             "two_clauses", "clause_alt", "pas", "plit", "ptuple", "plist", "pconcat", "p_own_ctor", "p_own_ctor2", "p_own_ctor_pos"}
 SPECIFICATION Spec
